@@ -133,6 +133,17 @@ def _bonding_set(value):
     return value
 
 
+def membership_snapshot(coarse):
+    """What a returned coarse graph says about fragment membership: per coarse node its name and, for every member,
+    the member's key, atom name and fragment name."""
+    out = {}
+    for node in coarse.nodes:
+        sub = coarse.nodes[node].get("graph")
+        members = sorted((repr(m), sub.nodes[m].get("atomname"), sub.nodes[m].get("fragname")) for m in sub.nodes) if sub is not None else None
+        out[repr(node)] = (coarse.nodes[node].get("fragname"), members)
+    return out
+
+
 def summary(fine):
     """Structural summary used by the chaining oracle (names, edges with order and descriptor pair)."""
     return ({n: fine.nodes[n].get("atomname") for n in fine.nodes},
